@@ -295,14 +295,22 @@ def add_dataflow(body, costs, room, writers):
         return None
 
     def edge_fn(s, bi, tgt, atom, pol):
-        if atom is None or pol is not False:
+        if atom is None:
             return None
         ea = norm(body.expand(atom))
+        while ea[0] == "un" and ea[1] == "Not":
+            ea, pol = ea[2], (not pol)
+        # cost <= max_cost established in any spelling, including the stricter cost < max_cost
+        if ea[0] == "bin" and ea[1] in ("Lt", "Le"):
+            mx = lambda x: is_call(x, "SampledLFU::get_max_cost") and norm(x[2][0]) == costs
+            if pol is False and mx(ea[2]) and ea[3] == cost:      # !(max < cost), !(max <= cost)
+                return s.with_user((s.user[0], s.user[1], True))
+            if pol is True and ea[2] == cost and mx(ea[3]):       # cost < max, cost <= max
+                return s.with_user((s.user[0], s.user[1], True))
+        if pol is not False:
+            return None
         if (is_call(ea, "SampledLFU::update") or is_call(ea, "SampledLFU::contains")) and norm(ea[2][0]) == costs and norm(ea[2][1]) == key:
             return s.with_user((s.user[0], True, s.user[2]))
-        # !(cost > max_cost) with max_cost = get_max_cost(costs): Lt(get_max_cost(costs), cost) == false
-        if ea[0] == "bin" and ea[1] == "Lt" and is_call(ea[2], "SampledLFU::get_max_cost") and norm(ea[2][2][0]) == costs and ea[3] == cost:
-            return s.with_user((s.user[0], s.user[1], True))
         return None
 
     return dataflow(body, init_user=("none", False, False), node_fn=node_fn, edge_fn=edge_fn)
@@ -339,6 +347,17 @@ def check_C01(rep, fl):
     upds = calls_to(body, SLFU + "::update")
     if len(incs) < 1:
         raise AnchorMissing("add(): no call to SampledLFU::increment")
+    # who may charge a new key: only add(), where each site is shown below to follow the absent / size / room tests
+    other = "r#async" if fl.name == "sync" else "::sync::"
+    outside = []
+    for ob in facts.bodies:
+        if not user_code(ob) or "::test" in ob.spath or other in ob.spath or ob.spath == body.spath or ob.spath.startswith(body.spath + "::{closure"):
+            continue
+        for bi_, t_ in calls_to(ob, SLFU + "::increment"):
+            outside.append((ob, t_))
+    rep.check(not outside, "R01.3", fl, SLFU + "::increment", "callers", "a new key is charged (SampledLFU::increment) only by add(), behind its absent / size / room tests",
+              "%s also charges a key through SampledLFU::increment, without add()'s tests: the key may already be charged, be larger than max_cost, or not fit"
+              % ", ".join(sorted({o.spath for o, _ in outside})), loc=outside[0][1]["sp"] if outside else None)
     maxc_atoms = []
     for bi, t in incs:
         nk = (bi, term_idx(body, bi))
@@ -490,6 +509,30 @@ def check_C07(rep, fl):
     writers = set(slfu_writers(facts))
 
     at, entry = add_dataflow(body, costs, room, writers)
+
+    # --- R07.8: an item is refused for its size only when it is larger than the whole cache -----
+    sized = []
+    for bi in body.live_blocks():
+        t = body.term(bi)
+        if not t or t["k"] != "switch":
+            continue
+        for tgt, atom, pol in edge_literals(body, bi):
+            if atom is None:
+                continue
+            ea = norm(body.expand(atom))
+            while ea[0] == "un" and ea[1] == "Not":
+                ea, pol = ea[2], (not pol)
+            if ea[0] == "bin" and ea[1] in ("Lt", "Le") and {0, 1} == {0 if (is_call(x, "SampledLFU::get_max_cost") and norm(x[2][0]) == costs) else (1 if x == norm(cost) else 2) for x in (ea[2], ea[3])}:
+                sized.append((bi, ea, pol, t))
+    exact = bool(sized)
+    for bi, ea, pol, t in sized:
+        # accepted: max < cost (cost > max_cost) and !(cost <= max)
+        mx_first = is_call(ea[2], "SampledLFU::get_max_cost")
+        if not ((ea[1] == "Lt" and mx_first) or (ea[1] == "Le" and not mx_first)):
+            exact = False
+    rep.check(exact, "R07.8", fl, body, "oversize test", "the size refusal is exactly `cost > max_cost`: an item that fills the whole cache is still admitted when there is room",
+              "the oversize test is not `cost > max_cost` (%s): an item with cost == max_cost is refused although there is room for it" % "; ".join(sorted({show(ea) for bi, ea, pol, t in sized})),
+              loc=sized[0][3]["sp"] if sized else None)
 
     # --- R07.1: room >= 0 edge => increment; return (None, true); nothing evicted -------------
     # find the first increment (the one whose states all have !(room<0) and no remove before)
@@ -923,12 +966,21 @@ def check_fill_sample(rep, fl, fs):
             rep.ok("R07.3", fl, fs, "return condition@bb%d" % rbi if False else "return condition", "returns only when len >= samples or key_costs is exhausted")
 
 
+def check_C07_all(rep, fl):
+    check_C07(rep, fl)
+    # R07.7: what the policy decides is carried out - every victim leaves the store (and goes to on_evict), whether
+    # or not the newcomer was admitted in the end; a refused newcomer goes to on_reject
+    import props_life
+    props_life.check_handle_item_pairing(rep, fl, rule="R07.7", collisions=False,
+                                         only_sites=("victim => try_remove(victim.key, 0)", "victims inspected on every path", "added => try_insert"))
+
+
 def check_C07_fastpath(rep, fl):
     """Only the `room available => admit, evict nothing` instances of C07 (shared with C04)."""
     from framework import Report
     tmp = Report(rep.prop, rep.tier)
     check_C07(tmp, fl)
     for i in tmp.instances:
-        if i.rule in ("R07.1", "R07.2"):
+        if i.rule in ("R07.1", "R07.2", "R07.8"):
             i.rule = "R04.2" if i.rule == "R07.1" else i.rule
             rep.instances.append(i)
